@@ -37,6 +37,35 @@ func normCond(v ssa.Value, val bool) (ssa.Value, bool) {
 	}
 }
 
+// addFact records cond == val and what follows from it when cond is the value of a short-circuit expression
+// (outside an if statement go/ssa materialises `a && b` as φ[false, b] and `a || b` as φ[true, b]):
+// (a && b) == true gives a and b; (a || b) == false gives !a and !b.
+func addFact(out factSet, cond ssa.Value, val bool, depth int) {
+	c, v := normCond(cond, val)
+	out[Fact{c, v}] = struct{}{}
+	ph, ok := c.(*ssa.Phi)
+	if !ok || depth > 4 || (ph.Comment != "&&" && ph.Comment != "||") {
+		return
+	}
+	short := ph.Comment == "||" // the constant carried by the short-circuit edges
+	if v == short {
+		return // a disjunction of possibilities: nothing certain follows
+	}
+	for i, e := range ph.Edges {
+		if k, isC := e.(*ssa.Const); isC {
+			if b, isB := ConstBool(k); isB && b == short && i < len(ph.Block().Preds) {
+				// the short-circuit edge was not taken: the test that guards it came out the other way
+				p := ph.Block().Preds[i]
+				if ifi, isIf := p.Instrs[len(p.Instrs)-1].(*ssa.If); isIf && len(p.Succs) == 2 {
+					addFact(out, ifi.Cond, p.Succs[0] != ph.Block(), depth+1)
+				}
+				continue
+			}
+		}
+		addFact(out, e, v, depth+1)
+	}
+}
+
 func NewFacts(fn *ssa.Function) *Facts {
 	f := &Facts{fn: fn, in: map[*ssa.BasicBlock]factSet{}}
 	if len(fn.Blocks) == 0 {
@@ -64,11 +93,9 @@ func NewFacts(fn *ssa.Function) *Facts {
 				if ifi, ok := p.Instrs[len(p.Instrs)-1].(*ssa.If); ok {
 					// succs[0] = true branch, succs[1] = false branch
 					if p.Succs[0] == b && p.Succs[1] != b {
-						c, v := normCond(ifi.Cond, true)
-						out[Fact{c, v}] = struct{}{}
+						addFact(out, ifi.Cond, true, 0)
 					} else if p.Succs[1] == b && p.Succs[0] != b {
-						c, v := normCond(ifi.Cond, false)
-						out[Fact{c, v}] = struct{}{}
+						addFact(out, ifi.Cond, false, 0)
 					}
 				}
 				if first {
